@@ -1,7 +1,9 @@
 //! Token trees (C16): inputs whose tokens are either plain characters or groups holding an inner
 //! token sequence, supplied as nested slices (`&[TT]`, kind "tree": spans are indices into the
 //! slice being parsed) or through `Input::map` with global gapped spans (kind "treem").
-use crate::build::{Bxd, Kind, SSpan, P, X};
+use crate::build::{value_leaf, value_nd, value_set, Bxd, Kind, SSpan, P, X};
+use crate::ast::G;
+use crate::val::Val;
 use crate::errs::{ErrTy, Tok};
 use chumsky::input::{Input, MappedInput};
 use chumsky::prelude::*;
@@ -117,6 +119,8 @@ pub fn parse_ts(toks: &[char]) -> Result<Vec<(TS, SSpan)>, String> {
 
 impl<'a> Kind<'a> for &'a [TT] {
     const NAME: &'static str = "tree";
+    crate::build::value_impl!('a);
+    crate::build::value_set_impl!('a);
     crate::build::by_ref_impl!();
     fn tree_leaf<E: ErrTy<'a, Self>>() -> Result<Boxed<'a, 'a, Self, Self, X<E>>, String> {
         Ok(select_ref! { TT::Group(xs) => xs.as_slice() }.bxd())
@@ -134,6 +138,8 @@ pub fn ts_input<'a>(toks: &'a [(TS, SSpan)], eoi: SSpan) -> TsInput<'a> {
 
 impl<'a> Kind<'a> for TsInput<'a> {
     const NAME: &'static str = "treem";
+    crate::build::value_impl!('a);
+    crate::build::value_set_impl!('a);
     crate::build::by_ref_impl!();
     fn tree_leaf<E: ErrTy<'a, Self>>() -> Result<Boxed<'a, 'a, Self, Self, X<E>>, String> {
         Ok(select_ref! { TS::Group(xs, eoi) => ts_input(xs.as_slice(), *eoi) }.bxd())
